@@ -172,7 +172,37 @@ def main_wrapper(fn, pid, tier, seed):
         return fn(tier, seed)
     except SystemExit:
         raise
-    except Exception:
+    except Exception as e:
         traceback.print_exc()
+        where = _raised_inside_library(e)
+        if where is not None:
+            # The library itself raised on an input that every check feeds it on the unchanged tree without any
+            # exception: the behaviour under test changed.  This is a verdict, not a machinery failure.
+            ctx = Ctx(pid, tier, seed)
+            ctx.assume("the check was cut short: the library raised on an input of the check's own drivers, which the "
+                       "unchanged tree accepts")
+            ctx.violation("library.raised", "%s at %s" % (type(e).__name__, where),
+                          "".join(traceback.format_exception(type(e), e, e.__traceback__))[-3000:], None)
+            return ctx.finish()
         print("MACHINERY-FAILURE property=%s (exit 2; not a violation)" % pid)
         return 2
+
+
+def _raised_inside_library(exc):
+    """file:function of the innermost frame if the exception was raised by code of the library under test (and is not
+    one of the harness' own signals); None otherwise."""
+    if type(exc).__name__ in ("TLCError", "NotObservable", "Unrepresentable", "TapeMismatch", "TapeExhausted", "Boom") \
+            or isinstance(exc, (KeyboardInterrupt, MemoryError, ImportError)):
+        return None
+    tb = exc.__traceback__
+    last = None
+    while tb is not None:
+        last = tb
+        tb = tb.tb_next
+    if last is None:
+        return None
+    fn = os.path.realpath(last.tb_frame.f_code.co_filename)
+    lib = os.path.realpath(os.path.join(REPO, "ixai")) + os.sep
+    if fn.startswith(lib):
+        return "%s:%s" % (fn[len(lib):], last.tb_frame.f_code.co_name)
+    return None
